@@ -22,7 +22,7 @@ LEVEL = "exploration"
 RULE = (
     "Histories (Hypothesis RuleBasedStateMachine, 25/50 steps) over an alphabet of 12 solve specifications (shapes 6x5, 8x8, 7x9, "
     "9x4; modes below/at/default; single and double precision; footprint and dispersion; single/multiple/unsorted levels; analytic; "
-    "halo default/0/fractional; two specs differ from another only in the domain resp. the profiles) and the operations set_threads(1..8), reset_fft_manager(), write-and-truncate the FFTW wisdom file "
+    "halo default/0/fractional; two specs differ from another only in the domain resp. the profiles; the source array is one object per grid shape, refilled in place before every solve) and the operations set_threads(1..8), reset_fft_manager(), write-and-truncate the FFTW wisdom file "
     "then reset. Model: the first result seen for (spec, threads) - every later result for the same key must be bit-identical; every "
     "result must agree with the same solve done as the only solve of a fresh spawned single-threaded process (one process per spec) to 1e-12 of the field maximum (double; "
     "1e-5 for single precision against its double-precision twin). Non-trivial = history with >= 2 thread settings, >= 1 reset and a "
@@ -59,7 +59,8 @@ def _spec_inputs(k):
     si, modes, prec, fp, lv, ana, halo = table[k]
     ny, nx = shapes[si]
     j, i = np.meshgrid(np.arange(ny), np.arange(nx), indexing="ij")
-    q = np.cos(0.9 * i + 0.3 * j * j) + 0.2 * i
+    kq = {1: 0, 3: 2}.get(k, k)  # a single-precision spec and its double-precision twin share the source
+    q = np.cos(0.9 * i + 0.3 * j * j) + 0.2 * i + 0.15 * kq * np.sin(1.7 * j + kq)
     z = np.array([0.05, 0.5, 1.2, 2.2, 3.5, 5.0])
     u = 1.1 * np.log(z / 0.04) * (0.9 if not ana else 0 * z + 1)
     v = 0.6 * np.log(z / 0.04) * (1.0 if not ana else 0 * z + 1)
@@ -77,6 +78,7 @@ def _spec_inputs(k):
 
 
 NSPEC = 12
+_QBUF = {}
 TWIN = {1: 0, 3: 2}  # single-precision spec -> its double-precision twin
 SHAPE_OF = [0, 0, 1, 1, 2, 2, 3, 1, 3, 0, 0, 0]
 
@@ -85,6 +87,11 @@ def _solve(k):
     from bldfm.solver import steady_state_transport_solver as S
 
     a = _spec_inputs(k)
+    # the caller's flux array is ONE object per grid shape, refilled in place before every solve (a driver that
+    # updates its emission map between runs does exactly this): the solver must read its current contents
+    buf = _QBUF.setdefault(a["q"].shape, np.empty(a["q"].shape))
+    buf[...] = a["q"]
+    a["q"] = buf
     g, c, f = S(a["q"], a["z"], a["profiles"], a["domain"], a["levels"], modes=a["modes"], meas_pt=a["meas_pt"],
                 srf_bg_conc=a["bg"], footprint=a["footprint"], analytic=a["analytic"], halo=a["halo"], precision=a["precision"])
     return np.asarray(c), np.asarray(f)
